@@ -3,11 +3,13 @@ PID = 'C08'
 SPEC = dict(
     driver='c08_extend',
     extra=['ref/ref.c', 'ref/ref_sig.c', 'ref/ref_pdu.c', 'simnet.c'],
-    rule='Extender-behaviour enumeration at the transport seam. A case = (interface {KSI_Signature_extendTo, KSI_Signature_extend, async extending service} x '
+    rule='Extender-behaviour enumeration at the transport seam. A case = (interface {KSI_Signature_extendTo, KSI_Signature_extend, async extending service, high-availability extending service with two endpoints} x '
          'transport {TCP, HTTP} x PDU version x source signature form {no calendar chain, calendar chain, + publication record, + authentication record} x '
          'target {calendar head, = aggregation time, later, earlier} x supplied publication record {none, matching, other hash, other time} x extender reply '
          '(17 classes incl. 13 status codes, each right link altered). The reference extender serves chains from a virtual calendar consistent with the source '
-         'signature; the reference decision procedure says whether the reply may be accepted and what the extended signature must be.',
+         'signature; the reference decision procedure says whether the reply may be accepted and what the extended signature must be. '
+         'Record replacement on its own: KSI_Signature_replacePublicationRecord (once / twice) on sources with no anchor, a publication record, an authentication record (record listed last / first): '
+         'the serialized result equals the reference result (former anchor gone), parses again and clones identically.',
     bounds=dict(
         quick='TCP: all replies; HTTP: correct / wrong-id / right-altered; source forms with calendar chain: all replies, others: 4 key replies; first 2 sub-variants',
         thorough='full product of the dimensions above (v1 for correct / wrong-id / other-version / right-altered), plus two-chain sources'),
